@@ -197,6 +197,17 @@ def _run(rep, tier, replay, ok, info, tmp):
     root, files, imps = import_cases(tmp)
     for key, text in imps:
       add('import', key, text, root, files)
+    # several import roots, NOT in alphabetical order, a module present under both: the first root wins in both parsers
+    root_a = os.path.join(tmp, 'aaa_second_root')
+    os.makedirs(os.path.join(root_a, 'lib', 'a'), exist_ok=True)
+    with open(os.path.join(root_a, 'lib', 'a', 'one.l'), 'w') as f:
+      f.write('H(x) :- x == 33;\n')
+    with open(os.path.join(root_a, 'lib', 'a', 'only_second.l'), 'w') as f:
+      f.write('K(x) :- x == 44;\n')
+    files2 = dict(files, **{'<second root>/lib/a/one.l': 'H(x) :- x == 33;\n', '<second root>/lib/a/only_second.l': 'K(x) :- x == 44;\n'})
+    add('import', 'import:two-roots-shadowed-module', 'import lib.a.one.H;\nQ(x) :- H(x);\n', [root, root_a], files2)
+    add('import', 'import:two-roots-module-in-second', 'import lib.a.only_second.K;\nimport lib.a.one.H;\nQ(x) :- H(x), K(x);\n',
+        [root, root_a], files2)
 
   t0 = time.time()
   res = parsers.parse_all(cases, workers=4)
